@@ -536,3 +536,18 @@ Theorem C01_engine_eq_rule_by_rule_subset_ext : forall h matches r url host mr f
   = spec_verdict_p matches mr fc L T.
 Proof. exact engine_eq_spec_p_ext. Qed.
 Print Assumptions C01_engine_eq_rule_by_rule_subset_ext.
+
+(* ------------------------------------------------------------------ the 127-token cut-off is a
+   real limit of the index (not an artefact of the proofs): a plain rule matches a URL, its only
+   index token is a whole token of that URL, but lies beyond the cut-off of the request tokenizer
+   and is therefore never probed.  C01's quantifier is restricted to URLs below the cut-off; the
+   same input is C14's known finding C14_url_beyond_token_cutoff. *)
+From Adb Require Import Tok_Cutoff_Witness.
+Theorem C01_cutoff_needed_refuted :
+  plain_match false false (bs "/zz9/") long_url = true
+  /\ tokenize_filter (bs "/zz9/") true true = [bs "zz9"]
+  /\ ~ In (bs "zz9") (tokenize long_url)
+  /\ In (bs "zz9") (tku false false long_url 0 None None)
+  /\ List.length (tokenize long_url) = TOKENS_MAX.
+Proof. exact cutoff_needed_refuted. Qed.
+Print Assumptions C01_cutoff_needed_refuted.
